@@ -647,6 +647,11 @@ func (c *Conn) reconnect(ctx context.Context) error {
 	var res *wire.ClientConn
 	var resErr error
 	retry.Do(func() (end bool) {
+		if c.state.Is(connStatusClosed) {
+			// Close was called while backing off: no further attempt (no token request, no dial)
+			resErr = errors.ErrConnectionClosed
+			return true
+		}
 		c.logger.Infof(ctx, "Try reconnecting...")
 
 		res, resErr = c.Config.connectWire()
